@@ -809,6 +809,9 @@ func runStoreX(o *opts) error {
 					g.c16w5Shape(&t, stats) // entry points, DeleteWhere, aimed refusals (store_c16w5.go)
 				}
 			}
+			if profile == "c16" {
+				g.c16w7Shape(&t, stats) // link counts after creates / updates (store_c16w7.go; draws nothing unless the wiring has a ref-counted collection)
+			}
 			applyUpdateSysRule(k, &t)
 			c.WriteString(" ")
 			c.WriteString(w.txText(&t))
